@@ -68,6 +68,127 @@ def run(R):
         check_forwarding(c, repo)
 
 
+class _Unknown(Exception):
+    pass
+
+
+def path_choice_table(f):
+    """{(env scenario, os scenario): set of symbolic PATH values that reach <x>.split(os.pathsep)}"""
+    g = f.cfg
+    fn, envp = f.params[0], f.params[1]
+    ENVS = {'none': None, 'env-path': ('ENV', 'ENV.PATH', True), 'env-emptypath': ('ENV', '', True), 'env-nopath': ('ENV', None, True), 'env-empty': ('ENV', None, False)}
+    OSS = {'os-path': ('OS', 'OS.PATH', True), 'os-nopath': ('OS', None, True)}
+
+    def truthy(v):
+        if v is None or v == '' or v is False:
+            return False
+        if isinstance(v, tuple):
+            return v[2]
+        if v == '?':
+            raise _Unknown('truth value of an unknown expression')
+        return True
+
+    def ev(e, env, osobj):
+        if isinstance(e, ast.Constant):
+            return e.value
+        if isinstance(e, ast.Name):
+            if e.id in env:
+                return env[e.id]
+            raise _Unknown('name %s' % e.id)
+        d = dotted(e)
+        if d == 'os.environ':
+            return osobj
+        if d == 'os.defpath':
+            return 'DEFPATH'
+        if isinstance(e, ast.BoolOp):
+            v = None
+            for x in e.values:
+                v = ev(x, env, osobj)
+                if isinstance(e.op, ast.Or) and truthy(v):
+                    return v
+                if isinstance(e.op, ast.And) and not truthy(v):
+                    return v
+            return v
+        if isinstance(e, ast.UnaryOp) and isinstance(e.op, ast.Not):
+            return not truthy(ev(e.operand, env, osobj))
+        if isinstance(e, ast.IfExp):
+            return ev(e.body if truthy(ev(e.test, env, osobj)) else e.orelse, env, osobj)
+        if isinstance(e, ast.Compare) and len(e.ops) == 1:
+            a_, b_ = ev(e.left, env, osobj), ev(e.comparators[0], env, osobj)
+            op = e.ops[0]
+            if isinstance(op, (ast.Is, ast.Eq)):
+                return a_ == b_
+            if isinstance(op, (ast.IsNot, ast.NotEq)):
+                return a_ != b_
+            if isinstance(op, (ast.In, ast.NotIn)) and a_ == 'PATH' and isinstance(b_, tuple):
+                return (b_[1] is not None) == isinstance(op, ast.In)
+            raise _Unknown(norm(e))
+        if isinstance(e, ast.Call) and isinstance(e.func, ast.Attribute) and e.func.attr == 'get' and e.args and is_const(e.args[0], 'PATH'):
+            o = ev(e.func.value, env, osobj)
+            if not isinstance(o, tuple):
+                raise _Unknown('.get on %r' % (o,))
+            if o[1] is None and len(e.args) > 1:
+                return ev(e.args[1], env, osobj)
+            return o[1]
+        if isinstance(e, ast.Subscript) and is_const(e.slice, 'PATH'):
+            o = ev(e.value, env, osobj)
+            if isinstance(o, tuple) and o[1] is not None:
+                return o[1]
+            raise _Unknown('subscript may raise KeyError')
+        if isinstance(e, ast.Call) and dotted(e.func) in ('os.getenv', 'os.environ.get') and e.args and is_const(e.args[0], 'PATH'):
+            return osobj[1] if osobj[1] is not None or len(e.args) < 2 else ev(e.args[1], env, osobj)
+        return '?'
+
+    table = {}
+    for ek, eobj in ENVS.items():
+        for ok_, oobj in OSS.items():
+            got = set()
+            seen = set()
+            stack = [(g.entry, (('%s' % envp, eobj),))]
+            steps = 0
+            while stack:
+                n, envt = stack.pop()
+                steps += 1
+                if steps > 5000:
+                    raise AnalysisError('C13-D2: which(): PATH choice evaluation does not terminate')
+                key = (n.id, envt)
+                if key in seen:
+                    continue
+                seen.add(key)
+                env = dict(envt)
+                env.setdefault(fn, '?')
+                a = n.ast
+                try:
+                    # the split: record what is split
+                    sp = [k for k in node_calls(n) if callee_last(k) == 'split' and k.args and norm(k.args[0]) == 'os.pathsep'] if a is not None else []
+                    if sp:
+                        v = ev(sp[0].func.value, env, oobj)
+                        got.add(v if isinstance(v, str) else repr(v))
+                        continue
+                    if n.kind == 'test':
+                        try:
+                            tv = truthy(ev(a, env, oobj))
+                            labs = ('true',) if tv else ('false',)
+                        except _Unknown:
+                            labs = ('true', 'false')
+                        for s_, l_ in n.succ:
+                            if l_ in labs:
+                                stack.append((s_, envt))
+                        continue
+                    if n.kind == 'stmt' and isinstance(a, ast.Assign) and len(a.targets) == 1 and isinstance(a.targets[0], ast.Name):
+                        env[a.targets[0].id] = ev(a.value, env, oobj)
+                    elif n.kind == 'stmt' and isinstance(a, (ast.Return, ast.Raise)):
+                        continue
+                except _Unknown as e_:
+                    raise AnalysisError('C13-D2: which(): cannot evaluate the PATH choice (%s)' % e_)
+                envt2 = tuple(sorted(env.items(), key=lambda kv: kv[0]))
+                for s_, l_ in n.succ:
+                    if l_ not in ('exc', 'raise'):
+                        stack.append((s_, envt2))
+            table[(ek, ok_)] = got
+    return table
+
+
 def check_which(c, repo):
     f = repo.func('utils:which')
     g = f.cfg
@@ -82,25 +203,26 @@ def check_which(c, repo):
     want = {atom_key(ast.parse("os.path.dirname(%s) == ''" % fn, mode='eval').body, False), ('is_executable_file(%s)' % fn, True)}
     c.check(got == want, f, t0.ast, 'a name with a directory part that is executable is returned as given',
             witness='returned as given under %s' % sorted(got or []), kind='path', tag='explicit-path')
-    anyget = cfg_nodes_with_call(f, lambda k: callee_last(k) == 'get' and k.args and is_const(k.args[0], 'PATH'))
-    c.need(len(anyget) == 1, 'which: <env>.get("PATH") not found')
-    envuse = [(n, k) for n, k in anyget if is_name(k.func.value, env)]
-    if not envuse:
-        c.bad(f, anyget[0][1], 'PATH is not taken from the env argument: the executable is looked up on a PATH the child will not see',
-              witness=norm(anyget[0][1]), kind='flow', tag='path-from-env')
-        return
-    c.ok(f, envuse[0][1], 'PATH is read from the env argument', kind='flow', tag='path-from-env')
-    c.check(g.dominated_by(envuse[0][0], {t0})[0], f, t0.ast, 'the explicit-path case is decided before PATH is searched', tag='explicit-first')
-    tn = [t for t in g.nodes if t.kind == 'test' and norm(t.ast) == '%s is None' % env]
-    asg = [n for n in g.nodes if n.kind == 'stmt' and isinstance(n.ast, ast.Assign) and env in assigned_names(n.ast)]
-    ok = len(tn) == 1 and len(asg) == 1 and norm(asg[0].ast.value) == 'os.environ' and asg[0] in guard_region(g, tn[0], 'true')
-    c.check(ok, f, asg[0].ast if asg else None, 'os.environ is consulted only when no env argument was given (env is None)', kind='path', tag='env-default')
-    pv = envuse[0][0].ast.targets[0].id if isinstance(envuse[0][0].ast, ast.Assign) else None
-    c.need(pv, 'PATH value is not assigned')
-    te = [t for t in g.nodes if t.kind == 'test' and norm(t.ast) in ('not %s' % pv, '%s is None' % pv)]
-    d = [n for n in g.nodes if n.kind == 'stmt' and isinstance(n.ast, ast.Assign) and pv in assigned_names(n.ast) and norm(n.ast.value) == 'os.defpath']
-    c.check(len(te) == 1 and len(d) == 1 and d[0] in guard_region(g, te[0], 'true') and norm(te[0].ast) == 'not %s' % pv, f, te[0].ast if te else None,
-            'a missing or empty PATH falls back to os.defpath', kind='path', tag='defpath')
+    # which PATH is searched: decided by evaluating the function, up to the point where the PATH string is split, over every
+    # combination of {no env argument, env with PATH, env with empty PATH, env without PATH (empty or not)} x {parent has PATH, has none}
+    table = path_choice_table(f)
+    for (envk, osk), got in sorted(table.items()):
+        if envk == 'none':
+            want = 'OS.PATH' if osk == 'os-path' else 'DEFPATH'
+        elif envk == 'env-path':
+            want = 'ENV.PATH'
+        else:
+            want = 'DEFPATH'
+        what = {'none': 'no env argument', 'env-path': 'env argument with a PATH', 'env-emptypath': 'env argument whose PATH is empty',
+                'env-nopath': 'env argument without PATH', 'env-empty': 'empty env argument {}'}[envk]
+        c.check(got == {want}, f, None, '%s, parent process %s a PATH: the directories searched are those of %s '
+                '(the PATH the child will see; never the parent\'s when an env was given)' % (what, 'has' if osk == 'os-path' else 'has no', want),
+                witness='searches %s' % sorted(got), kind='alg', tag='path-choice:%s:%s' % (envk, osk))
+    pv = None
+    for n in iter_nodes(f.node):
+        if isinstance(n, ast.Call) and callee_last(n) == 'split' and n.args and norm(n.args[0]) == 'os.pathsep' and isinstance(n.func.value, ast.Name):
+            pv = n.func.value.id
+    c.need(pv, 'which: <PATH>.split(os.pathsep) not found')
     loops = [n for n in iter_nodes(f.node) if isinstance(n, ast.For)]
     c.need(len(loops) == 1, 'which: loop not found')
     loop = loops[0]
@@ -244,6 +366,7 @@ def check_forwarding(c, repo):
 
 
 MUTANTS = [
+    ('which-layered-defaults', 'utils', "    if env is None:\n        env = os.environ\n    p = env.get('PATH')\n    if not p:\n        p = os.defpath\n", "    p = os.environ.get('PATH') or os.defpath\n    if env is not None:\n        p = env.get('PATH') or p\n", 'D2'),
     ('split-init-basic', 'utils', "    state_whitespace = 4\n    state = state_whitespace\n", "    state_whitespace = 4\n    state = state_basic\n", 'D1'),
     ('split-esc-to-ws', 'utils', "        elif state == state_esc:\n            arg = arg + c\n            state = state_basic", "        elif state == state_esc:\n            arg = arg + c\n            state = state_whitespace", 'D1'),
     ('split-sq-backslash', 'utils', "        elif state == state_singlequote:\n            if c == r\"'\":\n                state = state_basic\n            else:\n                arg = arg + c", "        elif state == state_singlequote:\n            if c == r\"'\":\n                state = state_basic\n            elif c == '\\\\':\n                state = state_esc\n            else:\n                arg = arg + c", 'D1'),
@@ -266,6 +389,7 @@ MUTANTS = [
     ('init-env-late', 'pty_spawn', "        self.cwd = cwd\n        self.env = env\n", "        self.cwd = cwd\n        self.env = None\n", 'D3'),
 ]
 PRESERVING = [
+    ('which-or-form', 'utils', "    if env is None:\n        env = os.environ\n    p = env.get('PATH')\n    if not p:\n        p = os.defpath\n", "    source = os.environ if env is None else env\n    p = source.get('PATH') or os.defpath\n"),
     ('split-lstrip-first', 'utils', "    for c in command_line:\n", "    for c in command_line.lstrip():\n"),
     ('split-final-push-state', 'utils', "    if arg != '':\n        arg_list.append(arg)\n    return arg_list", "    if arg != '' and state == state_basic:\n        arg_list.append(arg)\n    return arg_list"),
     ('split-augassign', 'utils', "        elif state == state_esc:\n            arg = arg + c\n            state = state_basic", "        elif state == state_esc:\n            arg += c\n            state = state_basic"),
